@@ -37,6 +37,33 @@ var c06Programs = []string{
 	`$uppercase(a) & $x`,                             // registered variable
 	`a ~> $replace("z", "-", 1)`,                     // chain with a three-argument call (argument list with spare capacity in the tree)
 	`$join([a, $string($sum(o.k))], "-")`,            // built-ins that never take the context item ($join, $sum)
+	// family E (from index c06FnFirst): function values produced by an earlier evaluation and shared by
+	// every expression through RegisterVars - lambda, partial, transform, regex and chain objects
+	`$fv(a)`,
+	`$fv(n)`, // fails the lambda's signature: the error is built from the function object's name
+	`$pv(a)`,
+	`$tv($$).o.z`,
+	`$rv(a).match`,
+	`$cv(a)`,
+}
+
+const c06FnFirst = 16
+
+// c06FnVars are evaluated once per process; the same objects are registered before every execution.
+var c06FnVars map[string]interface{}
+
+func c06FnValues() map[string]interface{} {
+	if c06FnVars == nil {
+		c06FnVars = map[string]interface{}{"x": "gx"}
+		for name, src := range map[string]string{"fv": `function($s)<s:s>{$s & "!"}`, "pv": `$pad(?, 5, "*")`, "tv": `|o|{"z": 1}|`, "rv": `/[A-Z]/`, "cv": `$uppercase ~> $trim`} {
+			v, err := jsonata.MustCompile(src).Eval(nil)
+			if err != nil {
+				panic("c06FnValues: " + src + ": " + err.Error())
+			}
+			c06FnVars[name] = v
+		}
+	}
+	return c06FnVars
 }
 
 func c06Doc(thread int) interface{} {
@@ -72,7 +99,7 @@ func c06Scenarios(tier string) []c06Scenario {
 
 func c06MakeScenarios(tier string) []c06Scenario {
 	var out []c06Scenario
-	np := len(c06Programs)
+	np := c06FnFirst
 	// family A: two threads, one Eval each
 	for i := 0; i < np; i++ {
 		for j := 0; j < np; j++ {
@@ -99,6 +126,13 @@ func c06MakeScenarios(tier string) []c06Scenario {
 		for _, j := range core {
 			out = append(out, c06Scenario{name: fmt.Sprintf("eval %d; eval %d || eval %d", i, j, i), threads: [][]c06Op{{{'E', i}, {'E', j}}, {{'E', i}}}, shared: true})
 		}
+	}
+	// family E: shared function values called under a variable name
+	for i := c06FnFirst; i < len(c06Programs); i++ {
+		for j := c06FnFirst; j < len(c06Programs); j++ {
+			out = append(out, c06Scenario{name: fmt.Sprintf("eval %d || eval %d (own Exprs, shared function values)", i, j), threads: [][]c06Op{{{'E', i}}, {{'E', j}}}})
+		}
+		out = append(out, c06Scenario{name: fmt.Sprintf("eval %d || eval %d (one shared Expr)", i, i), threads: [][]c06Op{{{'E', i}}, {{'E', i}}}, shared: true})
 	}
 	if tier == "three" {
 		out = nil
@@ -127,7 +161,7 @@ func c06RegExts() error {
 // c06Setup resets the process state an execution starts from.
 func c06Setup(sc *c06Scenario) map[int]*jsonata.Expr {
 	jsonata.VerifResetGlobalRegistry()
-	jsonata.RegisterVars(map[string]interface{}{"x": "gx"}) // $x for program 13; compiled into the pooled Exprs
+	jsonata.RegisterVars(c06FnValues()) // $x for program 13, the function values of family E; compiled into the pooled Exprs
 	exprs := map[int]*jsonata.Expr{}
 	for ti, ops := range sc.threads {
 		for _, op := range ops {
